@@ -53,6 +53,9 @@ Emit == vKind # "none" =>
         /\ Same(o, <<o>>, o, <<v>>)                       \* as the allowed entry
         /\ Same(In3(o), <<P2, o>>, In3(v), <<P2, o>>)     \* inside a three-term expression
         /\ Same(In3(o), <<P2, o>>, In3(o), <<P2, v>>)
+        /\ vKind = "lic" =>                              \* a match that goes through the version range, both ways
+              /\ Same(LicRel[vIdx], <<o>>, LicRel[vIdx], <<v>>)
+              /\ Same(o, <<LicRel[vIdx]>>, v, <<LicRel[vIdx]>>)
         /\ PrintT(ToJson([k |-> "ext", e |-> v, err |-> ~Valid(v),
                           terms |-> IF Valid(v) THEN SetToSeqS({SetToSeqS(Spellings(t)) : t \in Leaves(Parse(o).node)}) ELSE <<>>]))
 =============================================================================
